@@ -425,6 +425,27 @@ func init() {
 		q.Next()
 		sink = int64(uintptr(q.Get(d.ID[op.Add[0]])))
 	})
+	addMisuse("debugguard", "Query1.Next twice after exhaustion", func(d *Drv, op *Op, h, _ ecs.Entity) {
+		// the first extra Next is rejected in every build; recovering from that must not revive the query
+		q := ecs.NewFilter1[u.P8](d.W).Query()
+		for q.Next() {
+		}
+		func() {
+			defer func() { recover() }()
+			q.Next()
+		}()
+		q.Next()
+	})
+	addMisuse("debugguard", "UnsafeQuery.Next twice after exhaustion", func(d *Drv, op *Op, h, _ ecs.Entity) {
+		q := ecs.NewUnsafeFilter(d.W, d.ids(op.Add[:1])...).Query()
+		for q.Next() {
+		}
+		func() {
+			defer func() { recover() }()
+			q.Next()
+		}()
+		q.Next()
+	})
 	addMisuse("debugguard", "UnsafeQuery.Next after Close in the middle of a table", func(d *Drv, op *Op, h, _ ecs.Entity) {
 		// an archetype whose first non-empty table holds at least two entities: the query is closed after the first one
 		st := d.W.Stats()
